@@ -38,6 +38,7 @@ class Interp(A.Interp):
         self.decisions = []
         self.alternatives = []        # decision prefixes still to explore
         self.panics = []
+        self.diffs = {}               # (id of a, id of b) -> [ids of ranges computed as a - b]: the one relational fact kept
 
     # ---------------------------------------------------------------- ranges
     def new_rng(self, lo, hi, nz=False):
@@ -61,6 +62,17 @@ class Interp(A.Interp):
             lo, hi, nz = self.store[v[1]]
             return (lo, hi, nz)
         return None
+
+    def concrete_index(self, idx):
+        """an array indexed by an unknown of small range: one path per value (the bounds check before it has refined the range)"""
+        if isinstance(idx, tuple) and idx[0] == "rng":
+            lo, hi, _nz = self.store[idx[1]]
+            if 0 <= lo <= hi and hi - lo < 16:
+                v = lo + self.choose(hi - lo + 1, "index")
+                self.store[idx[1]][0] = self.store[idx[1]][1] = v
+                self.store[idx[1]][2] = v != 0
+                return v
+        return idx
 
     def choose(self, n, what):
         """replay forking: n-way choice"""
@@ -104,6 +116,25 @@ class Interp(A.Interp):
                 st[0] = max(st[0], ry[0])
             if st[0] > 0 or st[1] < 0:
                 st[2] = True
+        # a comparison of two unknowns says something about their difference where one was computed (`d = max - min; if max <= min ..`)
+        if isinstance(a, tuple) and a[0] == "rng" and isinstance(b, tuple) and b[0] == "rng":
+            for (x_, y_), o in (((a[1], b[1]), op), ((b[1], a[1]), {"Lt": "Gt", "Gt": "Lt", "Le": "Ge", "Ge": "Le"}.get(op, op))):
+                for did in self.diffs.get((x_, y_), ()):
+                    st = self.store[did]
+                    if o == "Eq":
+                        st[0], st[1] = max(st[0], 0), min(st[1], 0)
+                    elif o == "Ne":
+                        st[2] = True
+                    elif o == "Lt":
+                        st[1] = min(st[1], -1)
+                    elif o == "Le":
+                        st[1] = min(st[1], 0)
+                    elif o == "Gt":
+                        st[0] = max(st[0], 1)
+                    elif o == "Ge":
+                        st[0] = max(st[0], 0)
+                    if st[0] > 0 or st[1] < 0:
+                        st[2] = True
 
     def decide(self, v):
         """truth value of a (possibly lazy) boolean from the ranges: True / False / None"""
@@ -200,13 +231,19 @@ class Interp(A.Interp):
             lo, hi = 0, min(ah, bh)
         else:
             lo, hi = tlo, thi
+        def remember(v):
+            # an exact (non-wrapping) difference of two unknowns
+            if base == "Sub" and isinstance(v, tuple) and v[0] == "rng" and all(isinstance(x, tuple) and x[0] == "rng" for x in (a, b)):
+                self.diffs.setdefault((a[1], b[1]), []).append(v[1])
+            return v
         if "WithOverflow" in op:
             if tlo <= lo and hi <= thi:
-                return ("tuple", [self.new_rng(lo, hi), 0])
+                return ("tuple", [remember(self.new_rng(lo, hi)), 0])
             return ("tuple", [self.new_rng(max(lo, tlo), min(hi, thi)), ("ovf", base, lo, hi)])
         if lo < tlo or hi > thi:
             lo, hi = tlo, thi            # wrapping in release; the checked form above is what debug builds run
-        return self.new_rng(lo, hi)
+            return self.new_rng(lo, hi)
+        return remember(self.new_rng(lo, hi))
 
     def rvalue(self, fr, rv, lhs_ty=None):
         if rv["k"] == "Cast":
